@@ -344,7 +344,13 @@ class C34(dst.Check):
                                 what += ' (location %d alone is inexplicable)' % l
                                 break
                         kinds = sig.split(':')[0].split('+')
-                        if 'c' in kinds:
+                        mixed = ph['kind'] == 'lock' and len(set(
+                            op['excl'] for ops in ph['ops'].values() for op in ops
+                            if op['what'] == 'lock' and op['target'] == t)) > 1
+                        if mixed:
+                            # shared and exclusive epochs on this very target: named first, whatever operations are inside
+                            cause = 'other_lock_mixed'
+                        elif 'c' in kinds:
                             cause = 'cas'
                         elif 'a' in kinds and 'f' in kinds:
                             cause = 'acc_vs_fetch'
@@ -507,7 +513,16 @@ class C34(dst.Check):
             return any(op['what'] == 'lock' and op['excl'] for _, _, op in ops(plan))
 
         def has_excl_and_shared(plan, cls, msg):
-            return has_excl_lock(plan, cls, msg) and any(op['what'] == 'lock' and not op['excl'] for _, _, op in ops(plan))
+            # some target is locked both ways within one phase
+            for ph in plan['phases']:
+                modes = {}
+                for lst in ph['ops'].values():
+                    for op in lst:
+                        if op['what'] == 'lock':
+                            modes.setdefault(op['target'], set()).add(bool(op['excl']))
+                if any(len(m) > 1 for m in modes.values()):
+                    return True
+            return False
 
         def fence_noassert_then_pscw(plan, cls, msg):
             seen = False
